@@ -7,5 +7,9 @@ impl FixtureDatabase {
     pub open spec fn uses(&self) -> Map<PV, Seq<UseV>> { usages_view(self.usages.m()) }
     pub open spec fn byfix(&self) -> Map<Seq<char>, Seq<(PV, UseV)>> { byfix_view(self.usage_by_fixture.m()) }
     pub open spec fn version(&self) -> u64 { self.definitions_version.v }
+    /// the fields no index-maintenance function touches
+    pub open spec fn rest(&self) -> (DashMap<PathBuf, Arc<String>>, DashMap<PathBuf, Vec<UndeclaredFixture>>, DashMap<PathBuf, HashSet<String>>) {
+        (self.file_cache, self.undeclared_fixtures, self.imports)
+    }
 
 }
